@@ -130,7 +130,7 @@ def unit_case(draw):
     elif dtype == "b":
         col = draw(st.lists(st.booleans(), min_size=n, max_size=n))
     elif dtype == "M":
-        col = draw(st.lists(st.integers(0, 20000), min_size=n, max_size=n))
+        col = draw(st.lists(st.integers(-30000, 20000), min_size=n, max_size=n))  # days since 1970-01-01, also before
     else:
         col = draw(st.lists(st.sampled_from(["a", "b", "c"]), min_size=n, max_size=n))
     # pointers: into a unique p_id vector, with negatives
